@@ -61,6 +61,14 @@ def patchBit (b : BitBuffer) (position : Nat) (bit : Bool) : Outcome BitBuffer :
   let b' ← ({ b with wp := position }).writeBit bit
   pure { b' with wp := before }
 
+/-- `with_write_position_at(position, f)` for any write `f`: the write position is restored
+    whatever `f` returns -/
+def atPos (b : BitBuffer) (position : Nat) (f : BitBuffer → Outcome BitBuffer) : Outcome BitBuffer := do
+  assert (decide (position ≤ b.buffer.length * 8))   -- debug_assert!
+  let before := b.wp
+  let b' ← f { b with wp := position }
+  pure { b' with wp := before }
+
 /-- `ensure_can_read_bits` -/
 def ensureCanRead (b : BitBuffer) (n : Nat) : Outcome Unit :=
   failIf (decide (n > b.wp - b.rp)) .endOfStream
